@@ -63,3 +63,34 @@ _interp("C19", "Theorems C19_*: Set is update-or-claim over a list read by first
         "220 job sequences quick / 2500 thorough")
 
 NOT_YET = {}
+
+
+def project(kind, obs):
+    """The part of an observation a property speaks about."""
+    tr = obs.get("trace") or []
+    if kind == "loop iterations (calls made by loop bodies, with the loop variables they received) and result":
+        return {"res": obs["res"], "events": tr}
+    if kind == "destination fields and result":
+        return {"res": obs["res"], "fields": obs["fields"]}
+    if kind == "destination fields, context variables and result":
+        return {"res": obs["res"], "fields": obs["fields"], "vars": obs["vars"]}
+    if kind == "calls with their arguments, destination fields and result":
+        return {"res": obs["res"], "trace": tr, "fields": obs["fields"]}
+    if kind == "context variables, calls and result":
+        return {"res": obs["res"], "trace": tr, "vars": obs["vars"]}
+    return {"res": obs["res"], "trace": tr, "fields": obs["fields"], "vars": obs["vars"]}
+
+
+for _p, _k in [("C01", "destination fields and result"), ("C02", "destination fields, context variables and result"),
+               ("C03", "executed rules (calls, destination fields, context variables) and result"),
+               ("C04", "loop iterations (calls made by loop bodies, with the loop variables they received) and result"),
+               ("C05", "loop iterations (calls made by loop bodies, with the loop variables they received) and result"),
+               ("C06", "loop iterations (calls made by loop bodies, with the loop variables they received) and result"),
+               ("C07", "executed rules (calls, destination fields, context variables) and result"),
+               ("C14", "executed rules (calls, destination fields, context variables) and result"),
+               ("C15", "executed rules (calls, destination fields, context variables) and result"),
+               ("C16", "executed rules (calls, destination fields, context variables) and result"),
+               ("C17", "calls with their arguments, destination fields and result"),
+               ("C18", "destination fields and result"),
+               ("C19", "context variables, calls and result")]:
+    PROPS[_p]["projection"] = _k
